@@ -148,6 +148,13 @@ def run(chk, S: Session):
     from_mean_and_std_rules(chk, S, r3)
     reversal_kernel_rules(chk, S)
     covariance_algebra_rules(chk, S)
+    triangularisation_rules(chk, S)
+    # 'dense conversion of a Gaussian': the composite axis of to_multivariate_normal is coefficient-major in all three models (rule function of C14, called
+    # directly because C14 borrows from this check)
+    from . import c14
+
+    r7 = chk.rule("R-C08-7", "dense embeddings are coefficient-major (n major, d minor): to_multivariate_normal of the isotropic and block-diagonal models and the dense priors' composite axes (rule function of C14)", floor=6)
+    c14.composite_rules(chk, S, r7)
     nin, nout, nmid = AD.dim("n_in"), AD.dim("n_out"), AD.dim("n_mid")
     for fam in FAMS:
         cfg = {"factorisation": fam.name}
@@ -158,6 +165,7 @@ def run(chk, S: Session):
             env = AD.AEnv()
             it.ndim_oracle = env.rank_of
             AD.install_vmap(it, env)
+            install_triu_contract(it)
             cond = mk_cond(it, env, fam, "c", nin, nout, Ein, Lin, Lout, Eout)
             construct = f"{cname}.{meth}"
             try:
@@ -581,6 +589,123 @@ def mean_algebra_rules(chk, S, r4):
         except AnalysisError as e:
             r4.unknown(f"{fam.cond_cls.rsplit('.', 1)[1]} mean algebra", str(e), where, cfg)
         S.absorb(it)
+
+
+# ---------------------------------------------------------------------------
+# R-C08-8: the two triangularisation helpers keep the Gram matrix.  Everything above treats TRIU(M) / sum_of_sqrtm_factors(stack) as "some right factor
+# with the Gram matrix of M / of the vertical stack"; this rule decides that for the helpers' own bodies.  qr_r(M) = Q^T M for an orthogonal Q (trusted:
+# the QR primitive), so S qr_r(M) keeps the Gram matrix iff S^T S = I: for a row scaling by a vector s that is s_i^2 = 1 for every i and every input,
+# including s computed from a zero pivot.
+def _unit_modulus(t, depth=0):
+    """'yes' | 'no: <reason>' | None (not decided) -- is every entry of t in {-1, +1} for every input?"""
+    if isinstance(t, bool):
+        return None
+    if isinstance(t, (int, float)):
+        return "yes" if t in (1, -1) else f"no: the constant {t}"
+    if not isinstance(t, T.Term) or depth > 8:
+        return None
+    if t.op == "neg" or (t.op in ("np.asarray", "np.ones_like") and t.args):
+        return "yes" if t.op == "np.ones_like" else _unit_modulus(t.args[0], depth + 1)
+    if t.op == "np.ones":
+        return "yes"
+    if t.op == "np.sign":
+        return f"no: sign(0) = 0, so a zero entry of {T.show(t.args[0], 3)} (a singular factor) zeroes the whole row"
+    if t.op == "np.where" and len(t.args) == 3:
+        a, b = _unit_modulus(t.args[1], depth + 1), _unit_modulus(t.args[2], depth + 1)
+        # where(x == 0, 1, sign(x)) / where(x != 0, sign(x), 1): the sign is taken off the zero set only
+        c = t.args[0]
+        for val, other, ops in ((t.args[2], a, ("eq",)), (t.args[1], b, ("ne",))):
+            if isinstance(val, T.Term) and val.op == "np.sign" and isinstance(c, T.Term) and c.op in ops and other == "yes":
+                x, z = c.args
+                if z in (0, 0.0) and x is val.args[0] or x in (0, 0.0) and z is val.args[0]:
+                    return "yes"
+        if a == "yes" and b == "yes":
+            return "yes"
+        for r in (a, b):
+            if isinstance(r, str) and r.startswith("no"):
+                return r
+        return None
+    if t.op == "mul":
+        rs = [_unit_modulus(x, depth + 1) for x in t.args]
+        if all(r == "yes" for r in rs):
+            return "yes"
+        return next((r for r in rs if isinstance(r, str) and r.startswith("no")), None)
+    return None
+
+
+def install_triu_contract(it):
+    """triu_via_qr by its contract (decided by R-C08-8 for the helper's own body): some right factor with the Gram matrix of the argument, typed like qr_r."""
+
+    def contract(itp, fn, a, kw, site):
+        return T.mk("linalg.qr_r", (a[0],), origin=site)
+
+    it.method_hooks["probdiffeq.util.cholesky_util.triu_via_qr"] = contract
+
+
+def triangularisation_rules(chk, S):
+    r8 = chk.rule("R-C08-8", "the triangularisation helpers keep the Gram matrix for every input, singular ones included: triu_via_qr(M) is qr_r(M), possibly with rows scaled by "
+                  "entries of modulus one; sum_of_sqrtm_factors(stack) triangularises the vertical stack (whose Gram matrix is the sum of the Gram matrices)", floor=2)
+    where = "probdiffeq/util/cholesky_util.py"
+    # (a) triu_via_qr
+    it = S.interp()
+    M = T.atom("M", ndims={"": 2})
+    M.meta["ndim"] = 2
+    try:
+        out = it.call(it.function_value("probdiffeq.util.cholesky_util.triu_via_qr"), [M], {}, "<harness>")
+    except (AnalysisError, RaiseSignal) as e:
+        r8.unknown("triu_via_qr", f"not analysed: {e}", where)
+        out = None
+    S.absorb(it)
+    if out is not None:
+        qr = T.mk("linalg.qr_r", (M,))
+        if out is qr:
+            r8.ok("triu_via_qr value", "qr_r(M): R^T R = M^T Q Q^T M = M^T M", where_of_term(out, where))
+        elif isinstance(out, T.Term) and out.op == "mul" and any(x is qr for x in out.args):
+            (sc,) = [x for x in out.args if x is not qr] or [None]
+            verdict, det = None, f"triu_via_qr(M) = {T.show(out, 5)}"
+            if isinstance(sc, T.Term) and sc.op == "getitem" and isinstance(sc.args[1], tuple) and len(sc.args[1]) == 2 and sc.args[1][1] is None and sc.args[1][0] == slice(None, None, None):
+                u = _unit_modulus(sc.args[0])
+                if u == "yes":
+                    verdict = True
+                elif isinstance(u, str):
+                    verdict, det = False, det + f": rows are scaled by entries that are not of modulus one -- {u[4:]}; the Gram matrix loses that row's outer product"
+            elif isinstance(sc, T.Term) and sc.op == "getitem" and isinstance(sc.args[1], tuple) and len(sc.args[1]) == 2 and sc.args[1][0] is None:
+                verdict, det = False, det + ": a column scaling S gives (R S)^T (R S) = S R^T R S, not R^T R"
+            elif isinstance(sc, (int, float)) and not isinstance(sc, bool):
+                verdict = sc in (1, -1)
+                det += f": scaled by the constant {sc}"
+            if verdict is None:
+                r8.unknown("triu_via_qr value", det + ": scaling not recognised as a modulus-one row scaling", where_of_term(out, where))
+            else:
+                r8.require(verdict, "triu_via_qr value", "S qr_r(M) with a row scaling of modulus-one entries: S^T S = I", det, where_of_term(out, where))
+        else:
+            r8.unknown("triu_via_qr value", f"triu_via_qr(M) = {T.show(out, 5)}: not qr_r(M) or a row scaling of it", where_of_term(out, where))
+    # (b) sum_of_sqrtm_factors: matrices and scalars
+    for label, nd in (("matrix factors", 2),):
+        it = S.interp()
+
+        def qr_hook(itp, fn, a, kw, site):
+            return T.mk("TRIU", (a[0],), origin=site)
+
+        it.method_hooks["probdiffeq.util.cholesky_util.triu_via_qr"] = qr_hook
+        R1, R2 = (T.atom(n, ndims={"": nd}) for n in ("R1", "R2"))
+        for a_ in (R1, R2):
+            a_.meta["ndim"] = nd
+        try:
+            out = it.call(it.function_value("probdiffeq.util.cholesky_util.sum_of_sqrtm_factors"), [(R1, R2)], {}, "<harness>")
+        except (AnalysisError, RaiseSignal) as e:
+            r8.unknown(f"sum_of_sqrtm_factors ({label})", f"not analysed: {e}", where)
+            S.absorb(it)
+            continue
+        S.absorb(it)
+        ok, det = False, f"sum_of_sqrtm_factors((R1, R2)) = {T.show(out, 5)}"
+        if isinstance(out, T.Term) and out.op == "TRIU":
+            st = out.args[0]
+            if isinstance(st, T.Term) and st.op in ("np.concatenate", "np.vstack"):
+                parts = st.args[0] if st.args else ()
+                ax = st.kwargs.get("axis", st.args[1] if len(st.args) > 1 else 0)
+                ok = isinstance(parts, (tuple, list)) and len(parts) == 2 and parts[0] is R1 and parts[1] is R2 and (st.op == "np.vstack" or ax in (0, -2))
+        r8.require(ok, f"sum_of_sqrtm_factors ({label})", "triu_via_qr of the vertical stack [R1; R2]: Gram = R1^T R1 + R2^T R2", det + ": not the triangularisation of the vertical stack of exactly the given factors", where_of_term(out, where))
 
 
 def where_of_term(t, default):
